@@ -134,6 +134,7 @@ def h_hist(ctx, n, alphabet, dom=3, grouped=False, prefix=(), nwd=0, masks=(24,)
             ghost.announce(r)
         kinds.append('wd-reg-' if withdrawn else 'wd-reg+')
 
+    watch = K.StaleWatch(rib)   # inside which RIB primitive a superseded entry is left behind (root cause for the signature)
     try:
         for i in range(n):
             want = prefix[i] if i < len(prefix) else alphabet
@@ -198,6 +199,7 @@ def h_hist(ctx, n, alphabet, dom=3, grouped=False, prefix=(), nwd=0, masks=(24,)
                 ghost.plus.clear()
             else:
                 raise AssertionError(kind)
+            watch.after()
 
         # ---- the outgoing queue drains
         tx.send(None)
@@ -208,7 +210,9 @@ def h_hist(ctx, n, alphabet, dom=3, grouped=False, prefix=(), nwd=0, masks=(24,)
     ctx.check('queue-drained', not rib.pending() and not tx.live, sig='C04:hist:queue-not-drained')
     cached = cached_table(rib)
     hist = '-'.join(k.split(':')[0] for k in kinds)
-    cause = 'stale-pending-entry' if tx.stale_seen > 0 else 'hist'
+    # known finding F2 is exactly: _update_rib (an announce superseding a still-queued announce of the same prefix) leaves the
+    # old entry in its attribute bucket.  A stale entry left inside the withdraw primitive, or elsewhere, is a different defect.
+    cause = watch.cause(tx.stale_seen, 'hist')
     info = {'ops': kinds, 'peer': peer.render(), 'adj-rib-out': cached.render(), 'intended': ghost.t.render(),
             'stale_pending_entries_seen': tx.stale_seen, 'grouped': grouped}
 
@@ -298,6 +302,7 @@ def h_step(ctx, k, ops, dom=3, grouped=False):
 
     kind = ctx.pick('op', ops)
     tx = Sender(rib, peer, grouped)
+    watch = K.StaleWatch(rib)
     try:
         if kind.startswith('announce:'):
             sel = pool.names.index(kind.split(':')[1])
@@ -325,7 +330,7 @@ def h_step(ctx, k, ops, dom=3, grouped=False):
             pass
         post_bad = rep_invariant(rib)
         info = {'op': kind, 'slots': desc, 'bucket_y_first': y_first, 'violated': post_bad}
-        cause = 'stale-pending-entry' if 'I1-superseded-entry-left-in-bucket' in post_bad else 'step'
+        cause = watch.cause(1 if 'I1-superseded-entry-left-in-bucket' in post_bad else 0, 'step')   # F2 only when left by _update_rib
         ctx.check('I-preserved', not post_bad, sig='C04:%s:invariant-not-preserved-by-%s' % (cause, kind.split(':')[0]), info=info)
         tx.send(None)
     except Exception as exc:
